@@ -24,6 +24,8 @@ SOFTWARE.
 Parse the input YAML for the architecture
 """
 
+from copy import deepcopy
+
 from lark.tree import Tree
 from typing import Optional
 
@@ -45,7 +47,9 @@ class Architecture:
             self.yaml = None
             return
 
-        self.yaml = yaml
+        # The level names are rewritten in place below, so work on a copy and
+        # leave the caller's dictionary as it was loaded
+        self.yaml = deepcopy(yaml)
 
         # We need to parse the tree names, check for errors, and add omitted
         # attributes
